@@ -228,9 +228,9 @@ def build_schemas(T):
     # ---- observers
     add('@CLASS@_@DIMENSION@', r'ppl_%s_(space_dimension|affine_dimension)' % D, 'V: $1 = $0.{2}();')
     add('@CLASS@_get_@CLASS_REPRESENT@s', r'ppl_%s_get_(constraints|congruences|generators|grid_generators)' % D,
-        'V: $1 = (void*) &$0.{2}();')
+        'V: cif::keep(t, 1, $0.{2}());')
     add('@CLASS@_get_minimized_@CLASS_REPRESENT@s', r'ppl_%s_get_minimized_(constraints|congruences|generators|grid_generators)' % D,
-        'V: $1 = (void*) &$0.minimized_{2}();')
+        'V: cif::keep(t, 1, $0.minimized_{2}());')
     add('@CLASS@_relation_with_@RELATION_REPRESENT@', r'ppl_%s_relation_with_(Constraint|Generator|Congruence|Grid_Generator)' % D,
         'I: $0.relation_with($1).get_flags()')
     add('@CLASS@_OK', r'ppl_%s_OK' % D, 'B: $0.OK()')
